@@ -48,6 +48,14 @@ def gen_C03(v, n):
     for _ in range(n):
         l, s, f = v.typed_sid(search=0.25)
         out.append(_op("C03", {"s": rng.choice([s, s, l + ":" + s, v.c01_string()])}))
+    # Sids built from their path (as every Finder over files builds them), of every path-backed type
+    configs = sorted(v.paths.keys())
+    for label, s, fields in families.concrete_path_sids(v, max(10, n // 10)):
+        out.append(_op("C03", {"s": s, "via_path": rng.choice(configs)}))
+    for cfg in configs:
+        for label in [l for l, _ in v.paths[cfg]["templates"] if l in v.tdict]:
+            flds = [(k, v.value((k, r), concrete_only=True)) for k, r in v.tdict[label]]
+            out.append(_op("C03", {"s": "/".join(val for _, val in flds), "via_path": cfg}))
     return out
 
 
